@@ -11,7 +11,7 @@ ASSUME = ["OpenMLS and NIP-44 are symbolic in the model (assumptions A1-A8 of DE
           "the hand-written client model (Model.Client) is validated by correspondence on this run's histories only",
           "wrapper timestamps are fixed by the schedule through the verif-hooks created_at override; event ids, authenticators and rumor ids are observed and mapped to small numbers by first occurrence"]
 
-def run(prop, tier, seed, t0, H):
+def run(prop, tier, seed, t0, H, second_engine=None):
     module = MODULES[prop]
     ob, facts, axioms, built = H.prelude(prop, module, tier)
     failures, coverage = [], {}
@@ -62,6 +62,10 @@ def run(prop, tier, seed, t0, H):
                     "generated_facts": facts, **extra}
     else:
         coverage = {"evaluations": 1, "distinct_nontrivial": 0, "rule": rule, "samples": ["build failed"]}
+    assume = list(ASSUME)
+    if second_engine is not None and built and os.path.exists(C.DRV):
+        # a second engine of the same property (C06: the ffi engine); it adds obligations, failures, coverage and assumptions
+        assume += second_engine(ob, facts, failures, coverage, tier, seed)
     coverage["axioms_used"] = H.axiom_summary(axioms)
     checker = f"cd lean && lake build {module} mdkdrv && lake env lean .lake/audit/{prop}_axioms.lean; ./check {prop} --tier {tier}"
-    return C.finish(prop, tier, seed, t0, ob, failures, coverage, ASSUME, checker, H.TRUSTED + [f"axioms actually used: {H.axiom_summary(axioms)}"])
+    return C.finish(prop, tier, seed, t0, ob, failures, coverage, assume, checker, H.TRUSTED + [f"axioms actually used: {H.axiom_summary(axioms)}"])
